@@ -1,13 +1,17 @@
-\* C18 conn VAL, diagnostic run: high-water mark of rejected cases.
+\* C18 conn VALdiag: recorded executions of the real conn against JsonRpc (NC includes the probe call / the burst callers).
 CONSTANTS
   NC = 4
   NN = 2
   MaxPN = 2
   MaxPC = 2
+  MaxStray = 2
   UseWriteMu = TRUE
   ChanCap = 1
   RegisterFirst = TRUE
+  AtomicAlloc = TRUE
+  IdDecode = "strict"
+  IdVocab = "full"
 INIT TraceInit
 NEXT TraceNext
-INVARIANTS TypeOK Matched NoInventedResponse FramesNeverInterleave MutexOK ReaderNeverBlocks PendingExact Progress
+INVARIANTS TypeOK Matched NoInventedResponse UniqueIds PendingIsMap PendingOwned IdTypePreserved DispatchedToOwner PeerCallsEchoed FramesNeverInterleave MutexOK ReaderNeverBlocks PendingExact Progress
 CHECK_DEADLOCK FALSE
